@@ -37,6 +37,15 @@ fn verif_loops_nth_back<'a>(v: &'a Vec<Loop>, from: usize, n: usize) -> (r: Opti
     ensures r is Some <==> n < v@.len() - from, r is Some ==> *r->0 == v@[v@.len() - 1 - n]
 { v[from..].iter().nth_back(n) }
 pub uninterp spec fn xmap_nth(m: Xmap, i: int) -> Option<(Cell, Cell)>;
+pub uninterp spec fn xmap_size(m: Xmap) -> usize;
+impl Xmap { #[verifier::external_body] pub fn size(&self) -> (r: usize) ensures r == xmap_size(*self) { unimplemented!() } }
+impl vstd::std_specs::convert::FromSpecImpl<i32> for Cell {
+    open spec fn obeys_from_spec() -> bool { true }
+    open spec fn from_spec(x: i32) -> Cell { Cell::Int(x as i128) }
+}
+impl From<i32> for Cell {
+//@use cell.fns "impl From<i32> for Cell"::from
+}
 impl Xvec {
     #[verifier::external_body] pub fn verif_iter_nth(&self, i: usize) -> (r: Option<&Cell>)
         ensures r is Some <==> i < self@.len(), r is Some ==> *r->0 == self@[i as int] { unimplemented!() }
@@ -140,6 +149,7 @@ impl State {
 //@use coll.fns ::core_word_slice
 //@use coll.fns ::core_word_unbox
 //@use coll.fns ::collect_tag_map
+//@use coll.fns ::foreach_init
 //@use coll.fns ::core_word_counter_i
 //@use coll.fns ::core_word_counter_j
 //@use coll.fns ::core_word_counter_k
